@@ -13,6 +13,9 @@ What runs:
      sensor, FAN, CO2, HUM) and replayed into a real Gateway on a virtual clock; after every step
      the stores are projected out (entity._msgs_) and msg._expired of every message is read; the
      attribute named by the behaviour is read; at the end every attribute is read twice.
+     A packet's stamp is the wall clock at its receipt and need not be later than the stamp before it: the same
+     millisecond (two frames of one serial read) and a clock that was put back (1 ms .. 1 h) are part of the
+     behaviours (MsgStore: StampSteps); "most recently received" is decided by arrival, never by the stamp.
      TLC (MsgStoreTrace) judges each recorded trace: contract clauses C14a-e (VIOLATION) and
      agreement with the transcription (MODEL-DRIFT).
   3. msg._expired tables over the clock for one message of every kind found in the shipped logs and
@@ -41,6 +44,37 @@ from harness import fakes, tlc, vloop
 from harness.report import Check, main_wrapper
 
 PID = "C14"
+# the trace judge's instance: by default it leaves open which of two *codes* of one attribute (setpoint <- 2309/2349)
+# is the most recent when the one that arrived earlier has the later (or an equal) stamp; VERIF_C14_CROSSCODE_STRICT=1
+# closes that (the unchanged library then fails C14a:not-the-latest-value - see c14_NOTES.md)
+TRACE_CFG = "MsgStoreTrace_strict.cfg" if os.environ.get("VERIF_C14_CROSSCODE_STRICT") else None
+
+
+def stamp_coverage(items: list[dict]) -> dict:
+    """How often did arrival order and stamp order disagree (measured on the recorded executions)?"""
+    n_eq = n_back = n_repl = n_reads = 0
+    for it in items:
+        prev_t = None
+        cur: dict[tuple[int, int], tuple[int, int]] = {}  # (ctx, code) -> (stamp of the newest arrival, against?)
+        for e in it["ev"]:
+            if e["k"] in ("rx", "other") and prev_t is not None:
+                n_eq += e["t"] == prev_t
+                n_back += e["t"] < prev_t
+            prev_t = e["t"]
+            if e["k"] == "rx":
+                against = False
+                for c in (e["mcs"] or e["cs"]):
+                    old = cur.get((c, e["code"]))
+                    a = old is not None and e["t"] <= old[0]
+                    cur[(c, e["code"])] = (e["t"], a)
+                    against = against or a
+                n_repl += against
+            elif e["k"] == "read":
+                codes = it["attrs"][e["a"] - 1]
+                n_reads += any(cur.get((e["c"], k), (0, False))[1] for k in codes)
+    return {"packets_with_the_stamp_of_the_packet_before": n_eq, "packets_stamped_earlier_than_the_packet_before": n_back,
+            "messages_replacing_one_with_an_equal_or_later_stamp": n_repl,
+            "reads_of_an_attribute_whose_newest_message_has_not_the_newest_stamp": n_reads}
 
 
 # --------------------------------------------------------------------------------------
@@ -51,10 +85,16 @@ def mc_jobs(tier: str) -> list[tuple[str, str, dict]]:
     jobs = [
         ("as-is", "MC_MsgStore.cfg", {}),
         ("repaired", "MC_MsgStore_fixed.cfg", {}),
+        # stamps that do not increase (same millisecond / clock put back): arrival order decides
+        ("stamps", "MC_MsgStore_stamps.cfg", {}),
     ]
     if tier == "thorough":
         jobs.append(("as-is-deep", "MC_MsgStore_t.cfg", {}))
         jobs.append(("in-flight", "MC_MsgStore_inflight.cfg", {"expect_violation": "FreshA"}))
+        jobs.append(("stamps-deep", "MC_MsgStore_stamps_t.cfg", {}))
+        # two codes of one attribute, stamp order against arrival order: left open by the contract (CrossCodeOpen);
+        # with it closed the model has the counter-example the library has (`max(msgs)` by dtm)
+        jobs.append(("stamps-cross-code-strict", "MC_MsgStore_stamps_strict.cfg", {"expect_violation": "FreshA"}))
     return jobs
 
 
@@ -285,7 +325,7 @@ def do_replay(path: str) -> None:
         print(f"  family {rp['family']}")
         item, _ = vloop.run(lambda: X.execute(fam, rp["events"], verbose=True))
         items = [item]
-    res = tlc.validate_batch("MsgStoreTrace", items, workers=1)
+    res = tlc.validate_batch("MsgStoreTrace", items, workers=1, cfg=TRACE_CFG)
     print("TLC verdict:", res["rejects"] or "accepted")
     sys.exit(1 if any(str(f[1]).startswith("C14") for r in res["rejects"] for f in r[1]) else 0)
 
@@ -346,7 +386,7 @@ def main(tier: str, replay: str | None) -> None:
 
         # ---- the in-flight counter-example of the model, on the real code (observed at quiescence)
         sitems = [vloop.run(lambda sc=sc: inflight_scenario(*sc))[0] for sc in INFLIGHT_SCENARIOS]
-        sres = tlc.validate_batch("MsgStoreTrace", sitems, workers=1)
+        sres = tlc.validate_batch("MsgStoreTrace", sitems, workers=1, cfg=TRACE_CFG)
         for idx, fails in sres["rejects"]:
             for line, cls in fails:
                 if cls == "drift":
@@ -360,7 +400,7 @@ def main(tier: str, replay: str | None) -> None:
 
         # ---- TLC judges
         res = tlc.validate_batch("MsgStoreTrace", items + titems + [c[0] for c in canaries],
-                                 workers=4 if quick else 8, chunk=1500)
+                                 workers=4 if quick else 8, chunk=1500, cfg=TRACE_CFG)
         nb = len(items)
         nreal = nb + len(titems)
         caught = {idx - nreal: fail for idx, fail in res["rejects"] if idx >= nreal}
@@ -437,6 +477,7 @@ def main(tier: str, replay: str | None) -> None:
                 "events_replayed_on_real_gateway": n_ev,
                 "attribute_reads_judged": n_reads,
                 "reads_returning_unknown_with_an_expired_message": n_exp_reads,
+                "stamp_order_against_arrival_order": stamp_coverage(items),
                 "inflight_scenarios_on_real_gateway": len(sitems),
                 "expired_tables": len(titems),
                 "corrupted_traces_rejected": len(canaries),
@@ -450,7 +491,12 @@ def main(tier: str, replay: str | None) -> None:
                 "lifetimes are read from the code (pkt._lifespan, 1F09 payload countdown), only the threshold laws are judged (J13)",
                 "a fall-back to an older, not-yet-due message of another code of the same attribute (setpoint: 2309/2349) is left open",
                 "W/RQ packets and other devices' traffic are 'other traffic': they must not change what is reported",
-                "consecutive packets are > 3 s apart (the 000A array-fragment merge is not exercised here)",
+                "a packet's stamp is the wall clock at its receipt: later than the one before it (> 3 s, or 0.4-2.9 s for the "
+                "000A fragment merge), the same millisecond (two frames of one serial read) or earlier (clock put back by "
+                "1 ms .. 1 h); 'most recently received' = arrival order; 'before the lifetime has passed' is judged on the "
+                "time really elapsed, 'once twice the lifetime has passed' on the age by the (put back) clock",
+                "left open: which of two codes of one attribute (setpoint <- 2309/2349) is the most recent when the one "
+                "that arrived earlier carries an equal or later stamp (CrossCodeOpen; VERIF_C14_CROSSCODE_STRICT=1 closes it)",
             ],
         )
     finally:
